@@ -100,8 +100,10 @@ Fixpoint gl_store_all (n : nat) (xm hw : T) (tab : list (T * T)) (i : nat) (zs :
   | zp :: rest => gl_store_all n xm hw (gl_store n xm hw tab i zp) (S i) rest
   end.
 
-Definition gl_mid (xmin xmax : T) : T := half * (xmax + xmin).
-Definition gl_hw (xmin xmax : T) : T := half * (xmax - xmin).
+(** x_middle = 0.5 * x_max + 0.5 * x_min;  x_half_width = 0.5 * x_max - 0.5 * x_min  (halved first: the sum and the
+    difference of the limits may exceed the largest double) *)
+Definition gl_mid (xmin xmax : T) : T := half * xmax + half * xmin.
+Definition gl_hw (xmin xmax : T) : T := half * xmax - half * xmin.
 
 Definition gl_assemble (n : nat) (xmin xmax : T) (zs : list (T * T)) : list (T * T) :=
   gl_store_all n (gl_mid xmin xmax) (gl_hw xmin xmax) (repeat (zero, zero) n) 0 zs.
